@@ -125,11 +125,22 @@ func NewSendType(left, right SessionType, mode Modality) *SendType {
 func (q *SendType) String() string {
 	var buffer bytes.Buffer
 	// buffer.WriteString("(")
-	buffer.WriteString(q.Left.String())
+	buffer.WriteString(stringLeftOperand(q.Left))
 	buffer.WriteString(" * ")
 	buffer.WriteString(q.Right.String())
 	// buffer.WriteString(")")
 	return buffer.String()
+}
+
+// Prints the left operand of the infix type operators * and -*. Both are right associative and the
+// continuation of a shift extends as far as possible, so a left operand that is itself
+// a *, -*, /\ or \/ type has to be bracketed to be read back as the same type.
+func stringLeftOperand(t SessionType) string {
+	switch t.(type) {
+	case *SendType, *ReceiveType, *UpType, *DownType:
+		return "(" + t.String() + ")"
+	}
+	return t.String()
 }
 
 func (q *SendType) StringWithModality() string {
@@ -175,7 +186,7 @@ func NewReceiveType(left, right SessionType, mode Modality) *ReceiveType {
 func (q *ReceiveType) String() string {
 	var buffer bytes.Buffer
 	// buffer.WriteString("(")
-	buffer.WriteString(q.Left.String())
+	buffer.WriteString(stringLeftOperand(q.Left))
 	buffer.WriteString(" -* ")
 	buffer.WriteString(q.Right.String())
 	// buffer.WriteString(")")
